@@ -23,16 +23,56 @@
 # define MC_ASAN 1
 #endif
 
+#if defined(__has_feature)
+# if __has_feature(memory_sanitizer)
+#  define MC_MSAN 1
+# endif
+#endif
+#if defined(MC_ASAN) || defined(MC_MSAN)
+# define MC_SANALLOC 1          /* the common sanitizer allocator interface (block sizes, live bytes, report fd) */
+#endif
+
 #ifndef MC_REPO_SRC
 # define MC_REPO_SRC "/repo/src/"
 #endif
 
-#ifdef MC_ASAN
-extern void __asan_set_error_report_callback(void (*cb)(const char *));
+#ifdef MC_SANALLOC
 extern size_t __sanitizer_get_current_allocated_bytes(void);
 extern size_t __sanitizer_get_allocated_size(const volatile void *p);
 extern int __sanitizer_get_ownership(const volatile void *p);
 extern void __sanitizer_set_report_fd(void *fd);
+#endif
+#ifdef MC_MSAN
+/* MemorySanitizer build: every read of an uninitialised value that decides a branch, an address or a system call is reported and the run goes on
+ * (-fsanitize-recover=memory); the reports are picked up from the report file like UBSan's */
+const char *__msan_default_options(void)
+{
+    return "halt_on_error=0:handle_segv=0:handle_abort=0:handle_sigfpe=0:handle_sigbus=0:handle_sigill=0:allocator_may_return_null=1:"
+           "external_symbolizer_path=/usr/bin/llvm-symbolizer-14:allow_user_segv_handler=1:print_stats=0:poison_in_malloc=1:poison_in_free=1:report_umrs=1";
+}
+#endif
+#ifdef MC_MSAN
+/* the service and protocol databases are read by uninstrumented libc code into its own static storage: what comes back is initialised */
+#include <netdb.h>
+extern void __msan_unpoison(const volatile void *a, size_t size);
+extern void __msan_unpoison_string(const volatile char *a);
+struct servent *__real_getservbyname(const char *, const char *);
+struct protoent *__real_getprotobyname(const char *);
+__attribute__((weak)) struct servent *__wrap_getservbyname(const char *n, const char *p)
+{
+    struct servent *s = __real_getservbyname(n, p); __msan_unpoison(&s, sizeof s);
+    if (s) { __msan_unpoison(s, sizeof *s); if (s->s_name) __msan_unpoison_string(s->s_name); if (s->s_proto) __msan_unpoison_string(s->s_proto); }
+    return s;
+}
+__attribute__((weak)) struct protoent *__wrap_getprotobyname(const char *n)
+{
+    struct protoent *s = __real_getprotobyname(n); __msan_unpoison(&s, sizeof s);
+    if (s) { __msan_unpoison(s, sizeof *s); if (s->p_name) __msan_unpoison_string(s->p_name); }
+    return s;
+}
+#endif
+#ifdef MC_ASAN
+extern void __asan_set_error_report_callback(void (*cb)(const char *));
 const char *__asan_default_options(void)
 {
     return "halt_on_error=0:detect_leaks=0:handle_segv=0:handle_abort=0:handle_sigfpe=0:handle_sigbus=0:"
@@ -113,6 +153,14 @@ int mc_replaying(void) { return g_replay != NULL; }
 int mc_have_asan(void)
 {
 #ifdef MC_ASAN
+    return 1;
+#else
+    return 0;
+#endif
+}
+int mc_have_msan(void)
+{
+#ifdef MC_MSAN
     return 1;
 #else
     return 0;
@@ -360,7 +408,7 @@ static void asan_cb(const char *report)
 
 void mc_poll_sanitizers(void)
 {
-#ifdef MC_ASAN
+#if defined(MC_ASAN) || defined(MC_MSAN)
     if (g_replay) return;
     off_t end = lseek(g_sanfd, 0, SEEK_END);
     if (end <= g_err_off) { if (end < g_err_off) g_err_off = end; return; }
@@ -371,6 +419,26 @@ void mc_poll_sanitizers(void)
         if (n <= 0) break;
         buf[n] = 0;
         char *p = buf;
+#ifdef MC_MSAN
+        for (char *w = buf; (w = strstr(w, "WARNING: MemorySanitizer: ")) != NULL; w += 20) {
+            char kind[100] = "msan:", site[120] = "?", det[400]; size_t kn = 5, i = 0;
+            for (const char *m = w + 26; *m && *m != '\n' && *m != ' ' && kn < sizeof kind - 1; m++) kind[kn++] = *m;
+            kind[kn] = 0;
+            /* first frame inside the repository sources names the site */
+            const char *q = w, *stop = strstr(w + 20, "WARNING: MemorySanitizer: "); int found = 0;
+            while ((q = strstr(q, " in ")) != NULL && (!stop || q < stop)) {
+                const char *fn = q + 4, *e = fn; while (*e && *e != ' ' && *e != '\n') e++;
+                const char *eol = strchr(fn, '\n'), *src = strstr(fn, MC_REPO_SRC);
+                if (*e == ' ' && src && (!eol || src < eol)) { size_t n = (size_t) (e - fn); if (n >= sizeof site) n = sizeof site - 1; memcpy(site, fn, n); site[n] = 0; found = 1;
+                    const char *ln = src + strlen(MC_REPO_SRC); while (*ln && *ln != '\n' && i < sizeof det - 1) det[i++] = *ln++; break; }
+                q = fn;
+            }
+            det[i] = 0;
+            if (!found) { const char *f0 = strstr(w, " in "); if (f0 && (!stop || f0 < stop)) { f0 += 4; size_t n = 0; while (f0[n] && f0[n] != ' ' && f0[n] != '\n' && n < sizeof site - 1) { site[n] = f0[n]; n++; } site[n] = 0; } }
+            char d2[500]; snprintf(d2, sizeof d2, "MemorySanitizer: a value that was never initialised decides a branch, an address or a call argument (%s)", det[0] ? det : "outside the library sources");
+            record_violation(site, kind, cur.shape ? cur.shape : "", d2);
+        }
+#endif
         while ((p = strstr(p, "runtime error: ")) != NULL) {
             char *ls = p; while (ls > buf && ls[-1] != '\n') ls--;
             char *le = strchr(p, '\n'); if (le) *le = 0;
@@ -404,7 +472,7 @@ void mc_poll_sanitizers(void)
 static long g_engine_bytes;          /* heap held by the engine's own tables; excluded from the harness' view */
 static long raw_live_bytes(void)
 {
-#ifdef MC_ASAN
+#ifdef MC_SANALLOC
     return (long) __sanitizer_get_current_allocated_bytes();
 #else
     struct mallinfo2 mi = mallinfo2();
@@ -415,7 +483,7 @@ long mc_live_bytes(void) { return raw_live_bytes() - g_engine_bytes; }
 size_t mc_block_size(const void *p)
 {
     if (!p) return 0;
-#ifdef MC_ASAN
+#ifdef MC_SANALLOC
     if (!__sanitizer_get_ownership(p)) return 0;
     return __sanitizer_get_allocated_size(p);
 #else
@@ -523,7 +591,7 @@ static void redirect_stderr(void)
     fflush(stderr);
     dup2(fd, 2); close(fd);
     g_err_off = 0;
-#ifdef MC_ASAN
+#ifdef MC_SANALLOC
     if (g_mute) {       /* runs at a runtime debug level > 0: the library's trace output goes to /dev/null, sanitizer reports stay in the scanned file */
         g_sanfd = dup(2);
         __sanitizer_set_report_fd((void *) (intptr_t) g_sanfd);
